@@ -386,7 +386,15 @@ def run(prog, check):
         else:
             v = resolve_expr(v, {k_: e_ for k_, e_ in subst.items() if k_ not in (lvn, copy_name)})
             v_ok = isinstance(v, ast.Subscript) and isinstance(v.slice, ast.UnaryOp) and unparse(v.slice) == '-1' and copy_name in unparse(v)
-        key_ok = lvn is not None and unparse(n.ast.targets[0].value.slice) == lvn
+        # plain copies of the loop variable made in the loop body (left by an inlined helper) name the same variable
+        lv_alias = {lvn}
+        for a_ in (ast.walk(loops_n[-1]) if loops_n else []):
+            if isinstance(a_, ast.Assign) and len(a_.targets) == 1 and isinstance(a_.targets[0], ast.Name) and isinstance(a_.value, ast.Name) \
+                    and a_.value.id in lv_alias and sum(1 for x_ in ast.walk(loops_n[-1]) if isinstance(x_, ast.Name) and x_.id == a_.targets[0].id
+                                                        and isinstance(x_.ctx, ast.Store)) == 1:
+                lv_alias.add(a_.targets[0].id)
+        key_ok = lvn is not None and (unparse(n.ast.targets[0].value.slice) in lv_alias or
+                                      unparse(resolve_expr(n.ast.targets[0].value.slice, subst)) == lvn)
         check.ob('C15.R5', '%s::installed-value-is-last-point' % ss.key, bool(v_ok and key_ok), '%s:%d' % (ss.module.rel, n.line),
                  'the value installed for a variable is the last point of its own searched series' if (v_ok and key_ok) else
                  'the value installed is `%s` for key `%s`' % (unparse(n.ast.value), unparse(n.ast.targets[0])), 'any accepted search')
